@@ -106,6 +106,8 @@ def do_op(obj, op: str, n: int, wrapper: str):
             rec["rb"] = _b(obj.read())
         elif op == "read1":
             rec["rb"] = _b(obj.read1(n))
+        elif op == "peek":
+            rec["rb"] = _b(obj.peek(1))
         elif op == "readline":
             rec["rb"] = _b(obj.readline(n))
         elif op == "next":
